@@ -170,6 +170,8 @@ func errClass(err error, rd *chunkReader) string {
 	s := err.Error()
 	has := func(x string) bool { return strings.Contains(s, x) }
 	switch {
+	case has("unmarshal: unexpected EOF"):
+		return "unpack" // UnmarshalPacked: packed.Unpack failed
 	case has("decode: read header"), has("decode: read segments"):
 		c := "unexpected-eof/hdr"
 		if has("read segments") {
@@ -225,6 +227,27 @@ func c14Marshal(arena string, segs [][]byte) string {
 			return "err " + errClass(err, nil)
 		}
 		return "ok " + render(b)
+	})
+}
+
+func c14MarshalPacked(arena string, segs [][]byte) string {
+	return Safely(func() string {
+		b, err := newMessage(arena, segs).MarshalPacked()
+		if err != nil {
+			return "err " + errClass(err, nil)
+		}
+		return "ok " + render(b)
+	})
+}
+
+func c14UnmarshalPacked(data []byte) string {
+	return Safely(func() string {
+		msg, err := capnp.UnmarshalPacked(data)
+		if err != nil {
+			return "err " + errClass(err, nil)
+		}
+		n, r, _ := segsOf(msg)
+		return fmt.Sprintf("ok %d %s", n, r)
 	})
 }
 
@@ -378,12 +401,23 @@ func runC14(out *Out, r *Rand, tier string, replay []string) {
 			segs := parseSegs(f[2])
 			res := c14Marshal(f[1], segs)
 			out.Case("marshal", line, res, Cls(res), len(segs) > 0)
+		case "marshalpacked":
+			segs := parseSegs(f[2])
+			res := c14MarshalPacked(f[1], segs)
+			out.Case("marshalpacked", line, res, Cls(res), len(segs) > 0)
+		case "unmarshalpacked":
+			data := parseBytes(f[1])
+			res := c14UnmarshalPacked(data)
+			out.Case("unmarshalpacked", line, res, clsOf(res), len(data) >= 2)
 		case "unmarshal":
 			data := parseBytes(f[1])
 			if len(data) > 4096 {
 				breadcrumb(line)
 			}
 			res := c14Unmarshal(data)
+			if len(data) > 4096 {
+				breadcrumb("")
+			}
 			out.Case("unmarshal", line, res, clsOf(res), len(data) >= 8)
 		case "encode":
 			segs := parseSegs(f[3])
@@ -393,6 +427,7 @@ func runC14(out *Out, r *Rand, tier string, replay []string) {
 			stream := parseBytes(f[5])
 			breadcrumb(line)
 			res := c14Decode(f[1] == "1", parseNum(f[2]), ParseInts(f[3]), strings.Split(f[4], ","), stream)
+			breadcrumb("")
 			kind := "decode"
 			if f[1] == "1" {
 				kind = "decode-packed"
